@@ -4,7 +4,7 @@ import itertools
 import z3
 
 from .interp import F, Agg, Cell, Ref, Unsupported, b_and, b_not, b_or, is_sym, to_bool, to_real
-from .lib import MAXN, R, add_step_oracle, binom, definitional, feq, merge_oracle
+from .lib import MAXN, R, add_step_oracle, binom, definitional, feq, g_feed, g_goal, g_merge, merge_oracle
 from . import rp
 
 # type name -> (highest central sum order, layout)
@@ -161,26 +161,22 @@ def check_merge_step(W, prop, ty):
                 z3.And(*gs), role="%s:%s.merge-step" % (prop, ty), note=note, replay=rpl)
 
 
-def feed(W, ty, vals):
-    """new() then add each value; returns the final value (single path expected)."""
-    v = W.call_pure(ty, "new", [])
-    for x in vals:
-        res = W.method(ty, "add", v, [F(x)])
-        rets = [(o, a) for (o, a) in res if o.kind == "return"]
-        if len(res) != 1 or len(rets) != 1:
-            raise Unsupported("%s::add from a concrete-length stream forked: %s" % (ty, [(o.kind, o.msg) for o, _ in res]))
-        v = rets[0][1]
-    return v
+def feed(W, ty, vals, pre=()):
+    """new() then add each value, following every feasible path: guarded list of final values"""
+    return g_feed(W, ty, [[F(x)] for x in vals], pre)
 
 
 def check_def_k(W, prop, ty, k):
     """k symbolic observations from new(): fields equal the statistics written out by definition."""
     P, _ = FAMILY[ty]
     xs = [z3.Real("x%d" % j) for j in range(k)]
-    v = feed(W, ty, xs)
-    n1, a1, M1 = get(W, ty, v)
+    gv = feed(W, ty, xs)
     kk, mean, M = definitional(xs, P)
-    W.prove("%s.def-%d" % (ty, k), [], state_eq(n1, a1, M1, kk, mean, M), role="%s:%s.definition" % (prop, ty),
+
+    def spec(v):
+        n1, a1, M1 = get(W, ty, v)
+        return state_eq(n1, a1, M1, kk, mean, M)
+    W.prove("%s.def-%d%s" % (ty, k, "" if len(gv) == 1 else "(%d paths)" % len(gv)), [], g_goal(gv, spec), role="%s:%s.definition" % (prop, ty),
             note="%d symbolic real observations added to new(): count, mean and sums of (x-mean)^p, p <= %d, by definition" % (k, P),
             replay=rp.stream_replay(ty, xs))
 
@@ -208,28 +204,29 @@ def check_def_merge(W, prop, ty, k, max_chunks):
     P, _ = FAMILY[ty]
     xs = [z3.Real("x%d" % j) for j in range(k)]
     kk, mean, M = definitional(xs, P)
+
+    def spec(v):
+        n1, a1, M1 = get(W, ty, v)
+        return state_eq(n1, a1, M1, kk, mean, M)
     goals = []
     count = 0
     variants = []
+    leaf_cache = {}
     for parts in range(1, max_chunks + 1):
         for comp in compositions(k, parts):
-            leaves = [feed(W, ty, xs[a:b]) for (a, b) in comp]
+            leaves = []
+            for (a, b) in comp:
+                if (a, b) not in leaf_cache:
+                    leaf_cache[(a, b)] = feed(W, ty, xs[a:b])
+                leaves.append(leaf_cache[(a, b)])
             for tree in trees(0, parts):
                 variants.append((comp, tree))
+
                 def build(t):
                     if isinstance(t, int):
-                        from .interp import clone_value
-                        return clone_value(leaves[t])
-                    l = build(t[0])
-                    r = build(t[1])
-                    ca, cb = Cell(l), Cell(r)
-                    outs = W.run(ty, "merge", [Ref(ca, ()), Ref(cb, ())], roots={"a": ca})
-                    if len(outs) != 1 or outs[0].kind != "return":
-                        raise Unsupported("merge forked on concrete sizes")
-                    return outs[0].state.roots["a"].v
-                v = build(tree)
-                n1, a1, M1 = get(W, ty, v)
-                goals.append(to_bool(state_eq(n1, a1, M1, kk, mean, M)))
+                        return leaves[t]
+                    return g_merge(W, ty, build(t[0]), build(t[1]))
+                goals.append(g_goal(build(tree), spec))
                 count += 1
     W.prove("%s.def-merge-%d(<=%d chunks: %d chunkings x trees)" % (ty, k, max_chunks, count), [], z3.And(*goals),
             role="%s:%s.merge-trees" % (prop, ty),
